@@ -209,7 +209,20 @@ func ruleBlocksCloseLatch(c *Check, p *Program, rule string) {
 		if !isR || len(r.Results) != 1 {
 			return
 		}
+		if in.Block() == fn.Recover {
+			return // the return after a recovered panic hands back the named results as they are
+		}
 		n++
+		if vals := deferredResult(r.Results[0], in); len(vals) > 0 {
+			// the named result is assigned by a deferred closure on all of its paths
+			for _, v := range vals {
+				if !latchValue(v, 2) {
+					ok = false
+					why = append(why, "return at "+p.InstrPos(in)+": the deferred assignment yields "+shortVal(v)+" instead of the latched error")
+				}
+			}
+			return
+		}
 		if !latchValue(r.Results[0], 2) {
 			ok = false
 			why = append(why, "return at "+p.InstrPos(in)+" yields "+shortVal(r.Results[0])+" instead of the latched error")
